@@ -94,6 +94,21 @@ pub fn check_decimal(ty: IntTy, lit: &str, obs: &Obs, key: &Case) -> CheckResult
     Ok(())
 }
 
+/// Fuzz decoding: first byte selects the integer type, the rest is a decimal
+/// literal (`None` unless the reference reader accepts the spelling).
+pub fn decode_text(data: &[u8]) -> Option<Case> {
+    let (k, rest) = data.split_first()?;
+    let lit = std::str::from_utf8(rest).ok()?;
+    // only what the lexer itself hands to a conversion as one decimal element
+    if crate::conv::lex_single(rest) != Some(Token::DecimalNumericProgramData(rest)) {
+        return None;
+    }
+    if lit.len() > 400 || dec::parse(rest).is_none() {
+        return None;
+    }
+    Some(Case::Decimal { ty: IntTy::ALL[*k as usize % IntTy::ALL.len()], lit: lit.to_string() })
+}
+
 pub fn check(case: &Case, obs: &Obs) -> CheckResult {
     match case {
         Case::Decimal { ty, lit } => check_decimal(*ty, lit, obs, case),
@@ -306,4 +321,8 @@ fn run(e: &Engine) {
         },
         check,
     );
+    if e.tier == crate::engine::Tier::Thorough {
+        // coverage-guided: arbitrary decimal spellings against the exact-arithmetic oracle
+        e.fuzz("fuzz-c07_dec", "c07_dec", 64_000_000, |b| decode_text(b).unwrap_or(Case::Decimal { ty: IntTy::U8, lit: "0".into() }), check);
+    }
 }
